@@ -171,7 +171,7 @@ class RetKinds:
                         else:
                             out.add("?")
                         continue
-                    if cal.endswith("arithmetic::float_result"):
+                    if cal.endswith("arithmetic::float_result") or cal.endswith("::from_f64_or_zero"):
                         out.add("Float")
                         continue
                     dty = t.get("dty") or ""
@@ -192,3 +192,131 @@ class RetKinds:
             if o.get("variant"):
                 return {o["variant"]}
         return {"?"}
+
+
+def per_variant(facts, name, param_local, R=None):
+    """{variant of the Value in `param_local` (a by-value or by-reference parameter / local of body `name`): set of result variants}
+    — the producers of the returned value are classified as in RetKinds, but under the P-VAR state (which variant the parameter has) in
+    which each producer is reached.  '?' = unclassified producer, 'SAME' is never returned: an operand handed back is reported as its own variant."""
+    from varflow import VarFlow, MOVED
+    R = R or RetKinds(facts)
+    b = facts.body(name)
+    VARIANTS = ("Bytes", "Regex", "Integer", "Float", "Boolean", "Timestamp", "Object", "Array", "Null")
+    defs = b.defs()
+    # carriers of the returned value (as in RetKinds.of, but only inside this body)
+    carry = set()
+    for kind, bb, si, x in defs.get(0, []):
+        if kind == "stmt" and x["rv"]["k"] == "agg" and x["rv"].get("variant") == "Ok":
+            l = op_local(x["rv"]["ops"][0])
+            if l is not None:
+                carry.add(l)
+    ret_is_value = b.local_ty(0) == VALUE
+    if ret_is_value:
+        carry.add(0)
+    grew = True
+    while grew:
+        grew = False
+        for bi, si, s in b.iter_stmts():
+            if s["d"]["l"] in carry and not s["d"].get("p") and s["rv"]["k"] == "use":
+                p = op_place(s["rv"]["op"])
+                if p is not None and not p.get("p") and p["l"] not in carry and p["l"] != param_local and not (1 <= p["l"] <= b.argc):
+                    carry.add(p["l"]); grew = True
+    import stdlibrules
+    pal_holder = [stdlibrules.value_aliases(b, [param_local])]
+    vf = VarFlow(facts, b, extra_locals=[param_local] + sorted(x for x in pal_holder[0] if b.local_ty(x).endswith(VALUE)))
+    out = {}
+    keys = ["_%d" % param_local, "(*_%d)" % param_local]
+
+    def cur(st):
+        for k in keys + ["_%d" % x for x in sorted(pal_holder[0])] + ["(*_%d)" % x for x in sorted(pal_holder[0])]:
+            v = st.get(k)
+            if v is not None:
+                vs = set(v) - {MOVED}
+                if vs and vs <= set(VARIANTS):
+                    return vs
+        return set(VARIANTS)
+
+    def rec(st, variants):
+        for a in cur(st):
+            out.setdefault(a, set()).update(variants(a))
+
+    # aliases of the parameter (handed back unchanged => same variant)
+    pal = pal_holder[0]
+
+    def on_stmt(bb, si, s, st):
+        d = s["d"]
+        rv = s["rv"]
+        is_ret_agg = d["l"] == 0 and not d.get("p") and rv["k"] == "agg" and rv.get("variant") == "Ok" and (rv.get("adt") == "std::result::Result")
+        if is_ret_agg:
+            o = rv["ops"][0]
+            if o.get("k") == "const":
+                cv = R.const_variant(o)
+                rec(st, lambda a: cv)
+            elif op_local(o) in carry:
+                pass          # recorded where the carrier is defined (each arm under its own state)
+            elif op_local(o) in pal:
+                rec(st, lambda a: {a})
+            return
+        if d["l"] not in carry or d.get("p"):
+            return
+        if rv["k"] == "agg" and (rv.get("adt") or "").endswith(VALUE):
+            v = rv.get("variant")
+            rec(st, lambda a: {v})
+        elif rv["k"] == "use":
+            o = rv["op"]
+            if o.get("k") == "const":
+                cv = R.const_variant(o)
+                rec(st, lambda a: cv)
+                return
+            p = op_place(o)
+            if p is None:
+                return
+            if not p.get("p") and p["l"] in carry:
+                return
+            if p["l"] in pal and all(e == "*" for e in p.get("p", [])):
+                rec(st, lambda a: {a})
+                return
+            # payload of `?`: find the call behind Try::branch
+            l = p["l"]
+            res = {"?"}
+            for _ in range(4):
+                ds = defs.get(l, [])
+                if len(ds) != 1 or ds[0][0] != "call":
+                    break
+                cal = b.callee(ds[0][3])
+                if cal.endswith("as std::ops::Try>::branch"):
+                    l = op_local(ds[0][3]["args"][0])
+                    if l is None:
+                        break
+                    continue
+                full = ds[0][3].get("rfn_full") or ds[0][3].get("fn_full") or cal
+                c = classify_conv(full)
+                if c is not None:
+                    res = set(c.split("|"))
+                elif cal.endswith("arithmetic::float_result") or cal.endswith("::from_f64_or_zero"):
+                    res = {"Float"}
+                break
+            rec(st, lambda a: res)
+
+    def on_term(bb, t, st):
+        if t["k"] != "call" or t["dest"].get("p"):
+            return
+        dl = t["dest"]["l"]
+        cal = b.callee(t)
+        if dl not in carry and not (dl == 0 and "from_residual" not in cal):
+            return
+        if dl == 0 and not ret_is_value and not (t.get("dty") or "").startswith("std::result::Result<" + VALUE):
+            return
+        full = t.get("rfn_full") or t.get("fn_full") or cal
+        c = classify_conv(full)
+        if c is not None:
+            cs = set(c.split("|"))
+            rec(st, lambda a: cs)
+        elif cal.endswith("arithmetic::float_result") or cal.endswith("::from_f64_or_zero"):
+            rec(st, lambda a: {"Float"})
+        elif re.search(r"::(clone|to_owned)$", cal) and t["args"] and op_local(t["args"][0]) in pal:
+            rec(st, lambda a: {a})
+        else:
+            rec(st, lambda a: {"?"})
+    vf.run(on_stmt=on_stmt, on_term=on_term)
+    return out
